@@ -35,6 +35,12 @@ func (fc *FCtx) evalCall(e *ast.CallExpr, st *State) []Val {
 	if sel, ok := unparen(e.Fun).(*ast.SelectorExpr); ok {
 		if s := info.Selections[sel]; s != nil && (s.Kind() == types.MethodVal) {
 			recvExpr = sel.X
+			if len(s.Index()) > 1 {
+				if fc.implicitRecv == nil {
+					fc.implicitRecv = map[ast.Expr]*types.Selection{}
+				}
+				fc.implicitRecv[sel.X] = s
+			}
 		}
 	}
 	fn := fc.calleeObj(e)
@@ -59,7 +65,7 @@ func (fc *FCtx) evalCall(e *ast.CallExpr, st *State) []Val {
 	}
 	if intr, ok := intrinsics[name]; ok {
 		if recvExpr != nil {
-			rv := fc.eval(recvExpr, st)
+			rv := fc.evalRecvExpr(recvExpr, st)
 			recv = &rv
 		}
 		var args []Val
@@ -107,7 +113,6 @@ func (fc *FCtx) evalCall(e *ast.CallExpr, st *State) []Val {
 var pureExternPrefixes = []string{
 	"(github.com/cosmos/cosmos-sdk/types.Coins).", "(github.com/cosmos/cosmos-sdk/types.DecCoins).", "(github.com/cosmos/cosmos-sdk/types.Coin).", "(github.com/cosmos/cosmos-sdk/types.DecCoin).",
 	"github.com/cosmos/cosmos-sdk/types.NewCoins", "github.com/cosmos/cosmos-sdk/types.NewCoin", "github.com/cosmos/cosmos-sdk/types.NewDecCoinsFromCoins", "github.com/cosmos/cosmos-sdk/types.NewDecCoins",
-	"github.com/cosmos/cosmos-sdk/types.AccAddressFromBech32", "github.com/cosmos/cosmos-sdk/types.ValAddressFromBech32",
 	"github.com/cosmos/cosmos-sdk/types/address.Module",
 	"strings.", "bytes.", "encoding/hex.", "strconv.", "crypto/sha256.Sum256", "github.com/cosmos/cosmos-sdk/types/address.MustLengthPrefix",
 	"(github.com/cosmos/cosmos-sdk/types.AccAddress).Bytes", "(github.com/cosmos/cosmos-sdk/types.ValAddress).Bytes",
@@ -132,7 +137,7 @@ func (fc *FCtx) pureExternCall(name string, fn *types.Func, e *ast.CallExpr, rec
 	sig := fn.Type().(*types.Signature)
 	var args []Val
 	if recvExpr != nil {
-		args = append(args, fc.eval(recvExpr, st))
+		args = append(args, fc.evalRecvExpr(recvExpr, st))
 	}
 	for _, a := range e.Args {
 		args = append(args, fc.eval(a, st))
@@ -355,7 +360,7 @@ func (fc *FCtx) evalBuiltin(name string, e *ast.CallExpr, st *State) []Val {
 			}
 			fc.panicCheck(st, "make-len", fmt.Sprintf("(and (<= 0 %s) (<= %s %s))", n.T, n.T, c.T), e.Pos())
 			et := elemType(t)
-			return []Val{{T: mkSlice(s, n.T, c.T, fmt.Sprintf("((as const (Array Int %s)) %s)", s.Elem.Name, fc.zeroTerm(s.Elem, et))), S: s, GoT: t}}
+			return []Val{{T: mkSlice(s, n.T, c.T, fc.constArray("Int", s.Elem, fc.zeroTerm(s.Elem, et))), S: s, GoT: t}}
 		case KMap:
 			for _, a := range e.Args[1:] {
 				fc.eval(a, st)
@@ -533,9 +538,9 @@ func (fc *FCtx) callByContract(c *FuncContract, fn *types.Func, sig *types.Signa
 	}
 	var outs []outParam
 	if recvExpr != nil && sig.Recv() != nil {
-		rv := fc.eval(recvExpr, st)
+		rv := fc.evalRecvExpr(recvExpr, st)
 		names[sig.Recv().Name()] = rv
-		if _, isPtr := sig.Recv().Type().(*types.Pointer); isPtr {
+		if _, isPtr := sig.Recv().Type().(*types.Pointer); isPtr && fc.implicitRecv[recvExpr] == nil {
 			outs = append(outs, outParam{sig.Recv().Name(), recvExpr, sig.Recv().Type()})
 		}
 	}
@@ -678,9 +683,11 @@ func (fc *FCtx) inlineCall(fi *FuncInfo, e *ast.CallExpr, recvExpr ast.Expr, st 
 		obj  types.Object
 		expr ast.Expr
 	}
+	origT := map[types.Object]string{}
 	if sig.Recv() != nil && recvExpr != nil {
-		rv := fc.eval(recvExpr, st)
+		rv := fc.evalRecvExpr(recvExpr, st)
 		if fi.Recv != nil {
+			origT[fi.Recv] = rv.T
 			st.vars[fi.Recv] = Val{T: rv.T, S: rv.S, GoT: fi.Recv.Type()}
 			if _, isPtr := fi.Recv.Type().(*types.Pointer); isPtr {
 				ptrOuts = append(ptrOuts, struct {
@@ -697,6 +704,7 @@ func (fc *FCtx) inlineCall(fi *FuncInfo, e *ast.CallExpr, recvExpr ast.Expr, st 
 		p := sig.Params().At(i)
 		v := fc.coerce(fc.eval(a, st), p.Type())
 		st.vars[p] = v
+		origT[p] = v.T
 		if _, isPtr := p.Type().(*types.Pointer); isPtr {
 			ptrOuts = append(ptrOuts, struct {
 				obj  types.Object
@@ -786,9 +794,39 @@ func (fc *FCtx) inlineCall(fi *FuncInfo, e *ast.CallExpr, recvExpr ast.Expr, st 
 	// write back pointer params
 	*st = *m
 	for _, po := range ptrOuts {
-		if v, ok := st.vars[po.obj]; ok {
+		if v, ok := st.vars[po.obj]; ok && v.T != origT[po.obj] {
 			fc.assignOut(po.expr, v, st)
 		}
 	}
 	return res
+}
+
+// evalRecvExpr evaluates a method receiver, following the implicit embedded-field path of promoted
+// methods (e.g. msgServer{*Keeper}: k.GetParams(ctx) has receiver k.Keeper).
+func (fc *FCtx) evalRecvExpr(recvExpr ast.Expr, st *State) Val {
+	v := fc.eval(recvExpr, st)
+	sel := fc.implicitRecv[recvExpr]
+	if sel == nil {
+		return v
+	}
+	bt := sel.Recv()
+	path := sel.Index()
+	for _, idx := range path[:len(path)-1] {
+		if p, ok := bt.Underlying().(*types.Pointer); ok {
+			bt = p.Elem()
+		}
+		stt, ok := bt.Underlying().(*types.Struct)
+		if !ok || v.S.Kind != KData {
+			oos("promoted method receiver through non-struct")
+		}
+		f := stt.Field(idx)
+		nv, ok := fieldSel(v, f.Name())
+		if !ok {
+			oos("embedded field %s", f.Name())
+		}
+		nv.GoT = f.Type()
+		v = nv
+		bt = f.Type()
+	}
+	return v
 }
